@@ -1,6 +1,6 @@
 (** C14: the run-time panic sites of the admission / governance-execution code that the model
     accounts for, in the vocabulary of the generated inventory Gen/PanicSites.v:
-    (function, kind, expression text, number of occurrences; kinds: assert, index, slice, panic, indexwrite, div, make, nilptr), plus how each is accounted for:
+    (function, kind, expression text, number of occurrences; kinds: assert, index, slice, panic, indexwrite, div, make, nilptr, nilfield = a selection x.f.g through a struct field inside logging code, which runs only at that log level), plus how each is accounted for:
       "model"     explicit [Panic] outcome in Model.v, proved unreachable in Theorems.v
       "map"       Go map index (cannot panic)
       "reviewed"  argued by hand (reason in the comment), outside the theorems
@@ -12,6 +12,8 @@ Open Scope string_scope.
 
 Definition model_sites : list (string * string * string * nat * string) := [
   ("chain.adjustRv", "slice", "ret[:maxRetSize-4]", 1, "reviewed");  (* guarded by len(ret) > maxRetSize *)
+  ("system.newVprCmd", "nilfield", "ctx.BlockInfo.ForkVersion", 1, "reviewed");  (* debug log line; ctx.BlockInfo is dereferenced unconditionally by the next statement (ForkVersion < 2) and set by newSystemContext from the block header info *)
+  ("system.voteCmd.updateVoteResult", "nilfield", "c.Vote.GetAmountBigInt", 2, "reviewed");  (* debug log line; c.Vote is the record returned by getVote (never nil: an empty types.Vote when there is none) and was already used by c.sub(c.Vote).  c.Proposal is nil for BP votes (model: the proposal of a voteBP command is None): a selection through it in logging code would be a Panic outcome at debug level and must not appear here *)
   ("chain.executeTx", "nilptr", "bs.BpReward.Add(&bs.BpReward, txFee)", 1, "model");  (* explicit Panic outcome of exec_gov for a type without a case in the dispatch; unreachable by tx_validate_type; the case lists are generated (C14_dispatch_complete) *)
   ("chain.executeTx", "nilptr", "txFee.Bytes()", 1, "model");  (* after the previous site: same condition *)
   ("types.IsQuirkTx", "index", "quirkTxMap[id]", 1, "map");  (* Go map index *)
